@@ -3,6 +3,8 @@ mod util;
 mod cli;
 mod c17;
 mod delta;
+mod c19;
+mod c18;
 
 fn main() {
     let mut it = std::env::args().skip(1);
@@ -14,6 +16,8 @@ fn main() {
         "c01" => delta::main_pairs(args, "c01"),
         "c16" => delta::main_pairs(args, "c16"),
         "c05" => delta::main_c05(args),
+        "c19" => c19::main(args),
+        "c18" => c18::main(args),
         _ => {
             eprintln!("unknown command {cmd}");
             2
